@@ -2,7 +2,6 @@
    on op sequences that the real FrameLoop has run (observations after each op). *)
 From Coq Require Import List ZArith Bool Arith.
 From TR Require Export model.Ring model.RingSpec corr.Common.
-From TR Require Import model.RingExt.
 Import ListNotations.
 Open Scope Z_scope.
 
@@ -45,21 +44,13 @@ Fixpoint spec_trace (sz : nat) (g : ghost Z) (prev_cur : Z) (steps : list (rop Z
     cur_ok && hist_ok && old_ok && rec_ok && spec_trace sz g' (o_cur ob) t
   end.
 
-(* the translated frameloop.go run on the same ops *)
-Definition source_trace (c : case) : list obs :=
-  map (fun o => match o with (h, old, rc, cur) => mkObs h old rc cur end)
-      (src_ring_run (c_sz c) (map fst (c_steps c))).
-
 Definition check (c : case) : Z :=
   let ops := map fst (c_steps c) in
   let impl := map snd (c_steps c) in
   let mdl := model_trace (new_ring (c_sz c) 0) ops in
-  let src := source_trace c in
   code (list_eqb obs_eqb mdl impl)
        (spec_trace (Z.to_nat (c_sz c)) (ghost0 Z) 0 (c_steps c))
-       (spec_trace (Z.to_nat (c_sz c)) (ghost0 Z) 0 (combine ops mdl))
-  + code_src (list_eqb obs_eqb src mdl)
-             (spec_trace (Z.to_nat (c_sz c)) (ghost0 Z) 0 (combine ops src)).
+       (spec_trace (Z.to_nat (c_sz c)) (ghost0 Z) 0 (combine ops mdl)).
 
 (* for replays: the model's trace and the index of the first diverging step *)
 Definition explain (c : case) :=
